@@ -261,6 +261,33 @@ var handshakes = []handshake{
 		}
 		return ""
 	})},
+	// the peer answers with a stream error where its header is expected: as the
+	// very first element, and right behind its header (truncations of these are
+	// what the fault enumeration adds)
+	{"stream-error-in-place-of-header-initiator", initiator(0, false, func() []xmpp.StreamFeature { return nil }, func(step int, w string) string {
+		if step == 0 {
+			return `<?xml version='1.0'?><stream:error xmlns:stream='` + streamNS + `'><host-unknown xmlns='urn:ietf:params:xml:ns:xmpp-streams'/><text xmlns='urn:ietf:params:xml:ns:xmpp-streams' xml:lang='en'>no such host</text></stream:error>`
+		}
+		return ""
+	})},
+	{"stream-error-behind-header-initiator", initiator(0, false, func() []xmpp.StreamFeature { return nil }, func(step int, w string) string {
+		if step == 0 {
+			return hdr("jabber:client", "example.com", "me@example.com/r") + `<stream:error><host-unknown xmlns='urn:ietf:params:xml:ns:xmpp-streams'/></stream:error></stream:stream>`
+		}
+		return ""
+	})},
+	{"stream-error-in-place-of-header-receiver", receiver(0, false, func() []xmpp.StreamFeature { return nil }, func(step int, w string) string {
+		if step == 0 {
+			return `<stream:error xmlns:stream='` + streamNS + `'><host-unknown xmlns='urn:ietf:params:xml:ns:xmpp-streams'/></stream:error>`
+		}
+		return ""
+	})},
+	{"stream-error-in-place-of-open-websocket-initiator", initiator(0, true, func() []xmpp.StreamFeature { return nil }, func(step int, w string) string {
+		if step == 0 {
+			return `<stream:error xmlns:stream='` + streamNS + `'><host-unknown xmlns='urn:ietf:params:xml:ns:xmpp-streams'/></stream:error>`
+		}
+		return ""
+	})},
 	{"sasl-bind-initiator", initiator(xmpp.Secure, false, saslBind, clientScriptSASLBind("jabber:client"))},
 	{"websocket-initiator", initiator(xmpp.Secure, true, saslBind, func(step int, w string) string {
 		open := `<open xmlns='urn:ietf:params:xml:ns:xmpp-framing' version='1.0' id='x1' from='example.com' to='me@example.com/r'/>`
@@ -467,12 +494,18 @@ func faultBody(stride int) nd.Body {
 		b := base(h)
 		name := handshakes[h].name
 		failing := strings.HasPrefix(name, "failing-voluntary") || strings.HasPrefix(name, "two-failing")
+		refused := strings.HasPrefix(name, "stream-error") // the peer answers with a stream error: the fault-free run fails too
 		k := c.Choose(len(kinds)+1, "fault-kind")
 		if k == 0 {
 			// the fault-free run itself
 			c.Note("%s without fault: ready=%v err=%q", name, b.ready, b.err)
 			res := nd.Result{Outcome: "fault-free", NonTrivial: name}
 			switch {
+			case refused && strings.HasPrefix(b.err, "panic"):
+				res.Violation = &nd.Violation{Sig: "stream-error-in-place-of-header:panic", Msg: fmt.Sprintf("%s: %s", name, b.err)}
+			case refused && (b.ready || b.err == ""):
+				res.Violation = &nd.Violation{Sig: "stream-error-in-place-of-header:ignored", Msg: fmt.Sprintf("%s: the peer refused the stream but session establishment returned ready=%v err=%q", name, b.ready, b.err)}
+			case refused:
 			case failing && (b.ready || b.err == ""):
 				res.Violation = &nd.Violation{Sig: "step-error-swallowed", Msg: fmt.Sprintf("%s: a negotiation step returned an error but session establishment returned ready=%v err=%q", name, b.ready, b.err)}
 			case !failing && (!b.ready || b.err != ""):
